@@ -12,6 +12,7 @@ import (
 	"path/filepath"
 	"sync"
 	"sync/atomic"
+	"time"
 
 	"github.com/caddyserver/caddy/v2"
 	revocation "github.com/gr33nbl00d/caddy-revocation-validator"
@@ -23,6 +24,7 @@ type Behaviour struct {
 	Kind   string // "bytes", "status", "drop" (close the connection without answering)
 	Body   []byte
 	Status int
+	Delay  time.Duration // wait before answering
 }
 
 type Origin struct {
@@ -53,6 +55,9 @@ func (o *Origin) handle(w http.ResponseWriter, r *http.Request) {
 	if !ok {
 		w.WriteHeader(404)
 		return
+	}
+	if b.Delay > 0 {
+		time.Sleep(b.Delay)
 	}
 	switch b.Kind {
 	case "drop":
